@@ -37,9 +37,13 @@ fn free_port() -> u16 {
     l.local_addr().unwrap().port()
 }
 
-fn build(port: u16, threads: usize, sh: Arc<Shared>, slow_teardown: bool) -> Server {
+fn build(port: u16, threads: usize, sh: Arc<Shared>, slow_teardown: bool, max_head: Option<usize>) -> Server {
     let mut b = Server::builder(format!("127.0.0.1:{port}")).unwrap();
     b.thread_count(threads);
+    // `maxhead=<n>`: a non-default request-head limit (must hold in every serve mode)
+    if let Some(mh) = max_head {
+        b.max_request_head_size(mh);
+    }
     b.route(Method::Post, "/echo", |mut ctx, res| {
         let body = ctx.body().vec()?;
         res.ok(Headers::empty_nodate(), body)
@@ -160,10 +164,12 @@ pub fn serve(arg: &str) -> String {
     let mut threads = 2usize;
     let mut plan = "";
     let mut slow_teardown = false;
+    let mut max_head: Option<usize> = None;
     let mut late = false; // late=1: deferred script parts run AFTER the stop connection (connections still queued / open at StopAccepting)
     for w in arg.split_whitespace() {
         if w == "slowtd=1" { slow_teardown = true }
         if w == "late=1" { late = true }
+        if let Some(v) = w.strip_prefix("maxhead=") { max_head = v.parse().ok() }
         if let Some(v) = w.strip_prefix("mode=") { mode = v }
         if let Some(v) = w.strip_prefix("threads=") { threads = v.parse().unwrap_or(2) }
         if let Some(v) = w.strip_prefix("plan=") { plan = v }
@@ -181,7 +187,7 @@ pub fn serve(arg: &str) -> String {
         logs: Mutex::new(Vec::new()),
     });
     let port = free_port();
-    let server = build(port, threads, Arc::clone(&sh), slow_teardown);
+    let server = build(port, threads, Arc::clone(&sh), slow_teardown, max_head);
     let mode_s = mode.to_string();
     let (tx, rx) = std::sync::mpsc::channel();
     std::thread::spawn(move || {
